@@ -224,6 +224,60 @@ def big_sequence(rng, n, kind):
     return objs
 
 
+# ---------------------------------------------------------------- 32 MiB boundary: writer guard vs reader limit
+def gap_node(L):
+    """one plain node whose PrimitiveBlock message is ~32 MiB: 16296 tags with unique 1024-byte keys and values
+    (string table heavy) plus one tag whose value length L tunes the size byte by byte"""
+    def uniq(n, i, c):
+        return (b'%08d' % i + c * n)[:n]
+    tags = [(uniq(1024, i, b'k'), uniq(1024, i, b'v')) for i in range(16296)]
+    tags.append((uniq(200, 99999999, b'x'), uniq(L, 99999998, b'y')))
+    return {'kind': 'n', 'id': 1, 'version': 1, 'visible': True, 'timestamp': 0, 'changeset': 0, 'uid': 0, 'user': b'u', 'tags': tags, 'loc': (1, 1)}
+
+
+def blob_size_gap_probe(ctx, hbin, scratch):
+    """Regression probe `pbf-blob-size-gap` (fixed in 77d5451): with pbf_compression=none the Blob is the message
+    + 5 bytes; the writer guarded only the message (<= 32 MiB), the reader refuses a Blob > 32 MiB.  Sweep the
+    message size over 32 MiB - 5 … 32 MiB + 1: whenever the Writer reports success the Reader must accept."""
+    o = Opts(0, 31, 0, 0)
+    h = {'generator': b'gap', 'hist': False, 'boxes': []}
+    base = 600
+    out = run_impl(ctx, hbin, scratch, [case_line('enc', o.s(), h, [gap_node(base)])])
+    if out is None:
+        return
+    if out[0].startswith('err') or out[0].startswith('bad-op'):
+        ctx.count('gap:calibration-failed')
+        return
+    wl = run_impl(ctx, hbin, scratch, ['walk ' + out[0]])
+    if wl is None or not wl[0].startswith('W blobs='):
+        ctx.count('gap:calibration-failed')
+        return
+    raw = int(dict(x.split('=') for x in wl[0].split()[1:] if '=' in x)['maxraw'])
+    L0 = base + (MAXB - raw)          # value length at which the message is exactly 32 MiB
+    if not (133 <= L0 - 5 and L0 + 1 <= 1024):
+        ctx.count('gap:calibration-out-of-range')
+        return
+    for L in (L0 - 5, L0 - 4, L0 - 2, L0, L0 + 1):
+        name = 'gap-probe plain-node 16297 tags, message = 32MiB%+d bytes (L=%d)' % (L - L0, L)
+        ctx.note_case(name)
+        enc = run_impl(ctx, hbin, scratch, [case_line('enc', o.s(), h, [gap_node(L)])])
+        if enc is None:
+            return
+        if enc[0].startswith('err'):
+            ctx.count('gap:writer-raised')
+            continue
+        dec = run_impl(ctx, hbin, scratch, ['dec N1W1R1M1 ' + enc[0]])
+        if dec is None:
+            return
+        if dec[0].startswith('ok') and ' | n 1 v1 ' in dec[0][:200]:
+            ctx.count('gap:written-and-read')
+        else:
+            ctx.count('gap:written-but-refused')
+            ctx.violation('pbf-blob-size-gap', 'the Writer reported success on a block whose message is 32 MiB%+d bytes (Blob = message + 5 > 32 MiB) and the Reader refuses the file: %s [%s]'
+                          % (L - L0, short(dec[0], 200), name), {'kind': 'counterexample', 'probe': name, 'result': short(dec[0], 200),
+                                                                 'repro': '.build/proposed_fixes/C01-pbf-blob-size-gap.repro.cpp'})
+
+
 # ---------------------------------------------------------------- running
 def build(ctx):
     hbin, err = vlib.build_cpp('pbf', ['pbf.cpp'], flags=['-DOSMIUM_WITH_LZ4', '-fno-access-control'])
@@ -544,3 +598,7 @@ def _run(ctx, rng, quick, hbin, scratch):
                           % (n, name, kv.get('maxraw'), MAXB, kv.get('read'), kv.get('objs'), op, line), {'kind': 'counterexample', 'op': op, 'result': line})
         elif int(kv.get('maxent', 0)) > 8000:
             ctx.violation('pbf-block-over-8000:' + name, line, {'kind': 'counterexample', 'op': op})
+
+    # ---- writer guard vs reader limit at the 32 MiB boundary (finding pbf-blob-size-gap, fixed in 77d5451); 67 MB op lines
+    if not quick:
+        blob_size_gap_probe(ctx, hbin, scratch)
